@@ -41,15 +41,21 @@ CONSTANTS Brokers,        \* ids in the cluster's Raft configuration = candidate
           RecheckAtApply, \* a report that was overtaken between its pair check and its registration is refused
           \* defective variants of single decisions (FALSE = the code); their counterexamples are directed stimuli
           KeepTimers,     \* SetCoordinator does not cancel the old coordinator's timers
-          CountAllWit     \* every recorded witness counts towards the quorum (not only current members)
+          CountAllWit,    \* every recorded witness counts towards the quorum (not only current members)
+          RetryBlind      \* a failed expiry proposal re-arms the timer without looking whether the member is
+                          \* still there (as shipped: the server then dies of a nil pointer dereference)
 
 VARIABLES exists, members, coord, epoch,   \* the replicated group
           tmr,                             \* [Servers -> SUBSET Members]: liveness timers per server
           fo,                              \* the group's entry in groupFailovers at the controller
           armed, good,                     \* ghosts: window timer running; who reported the current coordinator in the window
           pend,                            \* reports inside ReportGroupCoordinator: pair checked, not yet registered
+          pendx,                           \* expiries in flight: <<server, member>> whose timer fired, Leave not yet proposed
+          gen, xgen,                       \* ghosts: how often each member joined; gen of a member when its expiry fired
+          taint,                           \* ghost: a known finding has happened (see P_ExpireApply)
+          crashed,                         \* a server died
           obs
-vars == <<exists, members, coord, epoch, tmr, fo, armed, good, pend, obs>>
+vars == <<exists, members, coord, epoch, tmr, fo, armed, good, pend, pendx, gen, xgen, taint, crashed, obs>>
 
 NoFo == [on |-> FALSE, wit |-> {}]
 NoCoord == "none"
@@ -63,11 +69,15 @@ TypeOK ==
   /\ armed \in BOOLEAN /\ good \subseteq Members
   /\ exists <=> members # {}
   /\ exists <=> coord # NoCoord
+  /\ pendx \subseteq Servers \X Members
+  /\ gen \in [Members -> Nat] /\ xgen \in [Members -> Nat]
+  /\ taint \in BOOLEAN /\ crashed \in BOOLEAN
 
 Bump(e, k) == IF Dense THEN epoch' = e + k ELSE epoch' > e   \* Raft indices only grow
 
 GroupSame == UNCHANGED <<exists, members, coord, epoch>>
-Quiet == GroupSame /\ UNCHANGED <<tmr, fo, armed, good, pend>>
+Ghosts == UNCHANGED <<pendx, gen, xgen, taint, crashed>>
+Quiet == GroupSame /\ UNCHANGED <<tmr, fo, armed, good, pend>> /\ Ghosts
 Refuse(a, err) == Quiet /\ obs' = [a |-> a, err |-> err]
 
 Stale(c, e) == ~exists \/ c # coord \/ e # epoch
@@ -80,12 +90,14 @@ DoJoin(m, c0) ==
     /\ exists' = TRUE /\ members' = {m} /\ coord' = c0 /\ epoch' = 0
     /\ tmr' = [s \in Servers |-> IF s = c0 THEN {m} ELSE {}]
     /\ fo' = NoFo /\ armed' = FALSE /\ good' = {} /\ UNCHANGED pend
+    /\ gen' = [gen EXCEPT ![m] = @ + 1] /\ UNCHANGED <<pendx, xgen, taint, crashed>>
     /\ obs' = [a |-> "Join", err |-> ""]
   ELSE IF m \in members THEN Refuse("Join", "member")
   ELSE
     /\ members' = members \cup {m} /\ Bump(epoch, 1)
     /\ tmr' = [s \in Servers |-> IF s = coord THEN tmr[s] \cup {m} ELSE tmr[s]]
     /\ UNCHANGED <<exists, coord, fo, armed, good, pend>>
+    /\ gen' = [gen EXCEPT ![m] = @ + 1] /\ UNCHANGED <<pendx, xgen, taint, crashed>>
     /\ obs' = [a |-> "Join", err |-> ""]
 
 \* the committed LEAVE_CONSUMER_GROUP operations of the members R (non-empty, subset of members)
@@ -105,7 +117,7 @@ DoLeave(m) ==
   ELSE IF m \notin members THEN Refuse("Leave", "notmember")
   ELSE /\ RemoveSet({m})
        /\ IF members = {m} THEN TRUE ELSE UNCHANGED <<fo, armed, good>>
-       /\ UNCHANGED pend
+       /\ UNCHANGED pend /\ Ghosts
        /\ obs' = [a |-> "Leave", err |-> ""]
 
 \* ------------------------------------------------------------------ heartbeat
@@ -155,13 +167,13 @@ ReportRefusal(m, c, e) ==
 
 DoReport(m, c, e, pref) ==
   IF ReportRefusal(m, c, e) # "" THEN Refuse("Report", ReportRefusal(m, c, e))
-  ELSE ReportEffect("Report", m, pref) /\ UNCHANGED pend
+  ELSE ReportEffect("Report", m, pref) /\ UNCHANGED pend /\ Ghosts
 
 \* the same request in two steps: it passes the checks ...
 DoReportCheck(m, c, e) ==
   IF ReportRefusal(m, c, e) # "" THEN Refuse("ReportCheck", ReportRefusal(m, c, e))
   ELSE /\ pend' = Append(pend, [m |-> m, c |-> c, e |-> e])
-       /\ GroupSame /\ UNCHANGED <<tmr, fo, armed, good>>
+       /\ GroupSame /\ UNCHANGED <<tmr, fo, armed, good>> /\ Ghosts
        /\ obs' = [a |-> "ReportCheck", err |-> ""]
 
 \* ... and reaches the registration of the witness arbitrarily later
@@ -169,6 +181,7 @@ DoReportApply(i, pref) ==
   LET r == pend[i] IN
   /\ i \in 1..Len(pend)
   /\ pend' = SubSeq(pend, 1, i - 1) \o SubSeq(pend, i + 1, Len(pend))
+  /\ Ghosts
   /\ IF RecheckAtApply /\ Stale(r.c, r.e) THEN
        /\ GroupSame /\ UNCHANGED <<tmr, fo, armed, good>>
        /\ obs' = [a |-> "ReportApply", err |-> IF exists THEN "stale" ELSE "nogroup"]
@@ -179,25 +192,53 @@ DoReportApply(i, pref) ==
      ELSE ReportEffect("ReportApply", r.m, pref)
 
 \* ------------------------------------------------------------------ time
-Fired(hb, s) == {m \in tmr[s] : ~(s = coord /\ m \in members /\ hb[m] = "good")}
+\* a timer whose expiry is in flight has fired and is not running (unless a heartbeat re-armed it:
+\* outside the domain, see MC)
+Fired(hb, s) == {m \in tmr[s] : <<s, m>> \notin pendx /\ ~(s = coord /\ m \in members /\ hb[m] = "good")}
 AllFired(hb) == UNION {Fired(hb, s) : s \in Servers}
+FiredPairs(hb) == UNION {{<<s, m>> : m \in Fired(hb, s)} : s \in Servers}
 
-DoWait(hb) ==
+\* park = the expiry callbacks that start in this period are held before they propose the removal
+\* (the proposal travels to the controller arbitrarily slowly): DoExpireApply lets one proceed
+DoWait(hb, park) ==
   /\ hb \in [Members -> HbModes]
   /\ LET R == AllFired(hb) \cap members IN
-     IF R = {} THEN /\ GroupSame
-                    /\ tmr' = [s \in Servers |-> tmr[s] \ AllFired(hb)]
-                    /\ fo' = NoFo /\ armed' = FALSE /\ good' = {}
-     ELSE /\ RemoveSet(R)
+     IF park THEN
+          /\ GroupSame /\ UNCHANGED tmr       \* consumer.timer stays set while the callback runs
+          /\ pendx' = pendx \cup FiredPairs(hb)
+          /\ xgen' = [m \in Members |-> IF m \in AllFired(hb) THEN gen[m] ELSE xgen[m]]
           /\ fo' = NoFo /\ armed' = FALSE /\ good' = {}
-  /\ UNCHANGED pend
-  /\ obs' = [a |-> "Wait", err |-> "",
-             fired |-> UNION {{<<s, m>> : m \in Fired(hb, s)} : s \in Servers},
-             acc |-> {}]
+     ELSE /\ IF R = {} THEN /\ GroupSame
+                            /\ tmr' = [s \in Servers |-> tmr[s] \ AllFired(hb)]
+                            /\ fo' = NoFo /\ armed' = FALSE /\ good' = {}
+             ELSE /\ RemoveSet(R)
+                  /\ fo' = NoFo /\ armed' = FALSE /\ good' = {}
+          /\ UNCHANGED <<pendx, xgen>>
+  /\ UNCHANGED <<pend, gen, taint, crashed>>
+  /\ obs' = [a |-> "Wait", err |-> "", fired |-> FiredPairs(hb), acc |-> {}, rej |-> {}]
+
+\* the expiry callback of member m on server s goes on: it proposes LeaveConsumerGroup(m, expired).
+\* The operation names only the consumer id: it removes whoever is a member under that id now.
+DoExpireApply(s, m) ==
+  /\ <<s, m>> \in pendx
+  /\ pendx' = pendx \ {<<s, m>>}
+  /\ UNCHANGED <<pend, gen, xgen>>
+  /\ IF exists /\ m \in members THEN
+        /\ RemoveSet({m})
+        /\ IF members = {m} THEN TRUE ELSE UNCHANGED <<fo, armed, good>>
+        /\ taint' = (taint \/ gen[m] # xgen[m])
+        /\ UNCHANGED crashed
+        /\ obs' = [a |-> "ExpireApply", err |-> ""]
+     ELSE
+        \* the proposal is refused (the member has left, the group is gone): the callback wants to try
+        \* again later and re-arms the timer of a consumer that is not there any more
+        /\ GroupSame /\ UNCHANGED <<tmr, fo, armed, good, taint>>
+        /\ crashed' = (crashed \/ RetryBlind)
+        /\ obs' = [a |-> "ExpireApply", err |-> IF exists THEN "notmember" ELSE "nogroup"]
 
 \* ------------------------------------------------------------------ controller loss, restart
 DoLose ==
-  /\ GroupSame /\ UNCHANGED <<tmr, pend>>
+  /\ GroupSame /\ UNCHANGED <<tmr, pend>> /\ Ghosts
   /\ fo' = NoFo /\ armed' = FALSE /\ good' = {}
   /\ obs' = [a |-> "Lose", err |-> ""]
 
@@ -208,7 +249,7 @@ DoLose ==
 DoRestart(s) ==
   /\ s \in Servers
   /\ tmr' = [tmr EXCEPT ![s] = IF exists /\ coord = s THEN members ELSE {}]
-  /\ GroupSame /\ UNCHANGED pend
+  /\ GroupSame /\ UNCHANGED pend /\ Ghosts
   /\ fo' = NoFo /\ armed' = FALSE /\ good' = {}
   /\ obs' = [a |-> "Restart", err |-> ""]
 
@@ -273,18 +314,32 @@ P_Leave(m) ==
        /\ obs'.err # "" => NoChange
        /\ exists' => coord' = coord
 
-\* time passes: (a) who keeps heartbeating correctly stays, (b) who does not is expired (when a running
-\* server coordinates the group), (c) only the coordinator's timers fire and only for such members,
-\* (e) heartbeats with a stale epoch or at the wrong server are never accepted
-P_Wait(hb) ==
+\* time passes: (a) who keeps heartbeating correctly stays and is never refused, (b) who does not is
+\* expired (when a running server coordinates the group; with `park` the removal is still in flight: its
+\* callback has started), (c) only the coordinator's timers fire and only for such members, (e) heartbeats
+\* with a stale epoch or at the wrong server are never accepted
+P_Wait(hb, park) ==
   LET f == obs'.fired IN
   /\ \A m \in members : hb[m] = "good" => (m \in members' /\ \A s \in Servers : <<s, m>> \notin f)
-  /\ coord \in Servers => \A m \in members : hb[m] # "good" => m \notin members'
+  /\ coord \in Servers => \A m \in members : (hb[m] # "good" /\ <<coord, m>> \notin pendx) =>
+                              IF park THEN <<coord, m>> \in f ELSE m \notin members'
   /\ \A x \in f : x[1] = coord /\ x[2] \in members /\ hb[x[2]] # "good"
   /\ members' \subseteq members
-  /\ \A m \in members \ members' : <<coord, m>> \in f
+  /\ \A m \in members \ members' : <<coord, m>> \in f /\ ~park
   /\ exists' => coord' = coord
   /\ obs'.acc = {}
+  /\ coord \in Servers => obs'.rej \cap members = {}
+
+\* an expiry in flight reaches the controller: nothing but the removal of that member may happen, and a
+\* membership that began after the timer fired (the consumer left and joined again) must not be ended by
+\* it (a) - the code cannot tell them apart: known finding, the ghost `taint` marks it on the model
+P_ExpireApply(s, m) ==
+  /\ members' \subseteq members /\ members \ members' \subseteq {m}
+  /\ (m \in members /\ gen[m] # xgen[m]) => m \in members'
+  /\ (exists /\ exists') => coord' = coord
+  /\ m \notin members => NoChange
+
+X01_NoCrash == ~crashed
 
 P_Quiet == NoChange          \* Lose, Restart (the group is untouched; timers as X01_TimersOnlyAtCoordinator says)
 P_Restart == GroupUnchanged
